@@ -20,7 +20,7 @@ EXHAUSTIVE = True
 SHARDS = {"quick": 8, "thorough": 16}
 DEADLINE = {"quick": 50, "thorough": 420}
 REQUIRED = {"layout:calls": 2000, "layout:class:plain": 100, "layout:class:one-child": 500, "layout:repeat-compared": 500,
-            "layout:mirror-compared": 500, "inv:y": 1000, "inv:bounds": 1000, "layout:ids:same": 100, "layout:ids:pool3": 100, "layout:ids:clone": 100, "inv:centre": 500, "inv:sep": 500}
+            "layout:mirror-compared": 500, "inv:y": 1000, "inv:bounds": 1000, "layout:subtree-with-parent": 200, "layout:detached-subtree": 200, "layout:ids:same": 100, "layout:ids:pool3": 100, "layout:ids:clone": 100, "inv:centre": 500, "inv:sep": 500}
 EPS = 1e-9
 
 
@@ -178,6 +178,33 @@ def drive_shape(rec, s, units, fac=None, ids="fresh"):
             continue
         first = coords(t)
         cls1 = shape_class(t)
+        # a sub-tree laid out on its own: the node handed to layout() is the root of the drawing,
+        # whether or not it still has a parent (a sub-expression of a larger tree, or a subtree
+        # that was replaced and kept its old parent pointer)
+        inner = [n for n in S.nodes_preorder(t) if n.parent is not None and (n.left is not None or n.right is not None)]
+        if inner:
+            sub = inner[(_SHARED["n"] * 7) % len(inner)]
+            IDS["now"] = ids + "+subtree"
+            try:
+                TreeLayout().layout(sub, ux, uy)
+                rec.arm("layout:subtree-with-parent")
+                par = sub.parent
+                if par.left is sub:
+                    par.set_left(None)
+                else:
+                    par.set_right(None)       # sub.parent still points at par (set_* keeps it by default)
+                TreeLayout().layout(sub, ux, uy)
+                rec.arm("layout:detached-subtree")
+            except Exception:
+                pass
+            IDS["now"] = ids
+            t = W9.build(s, fac)
+            if ids == "clone":
+                t = t.clone()
+            try:
+                TreeLayout().layout(t, ux, uy)
+            except Exception:
+                continue
         # the same nodes again
         try:
             TreeLayout().layout(t, ux, uy)
